@@ -1312,6 +1312,39 @@ func laneBad(x, y, z *[8]uint64, q uint64) {
 	z[6] = x[6] + y[6] + q
 	z[7] = x[7] + y[7] + q
 }
+// QRANGE controls: a kernel that leaves the range its method documents, one whose subtraction can wrap for a lazy operand
+type qrSub struct {
+	Modulus      uint64
+	MRedConstant uint64
+}
+
+// MulThenSubLazy evaluates p3 = p3 - p1*p2 (mod modulus) with p3 in range [0, 2*modulus-2].
+func (s *qrSub) MulThenSubLazy(p1, p2, p3 []uint64) {
+	qrmulthensublazyvec(p1, p2, p3, s.Modulus, s.MRedConstant)
+}
+
+func qrmulthensublazyvec(p1, p2, p3 []uint64, modulus, mredconstant uint64) {
+	twomodulus := modulus << 1
+	for j := 0; j < len(p1); j = j + 2 {
+		x, y, z := p1[j:j+2], p2[j:j+2], p3[j:j+2]
+		z[0] += twomodulus - ring.MRedLazy(x[0], y[0], modulus, mredconstant)
+		z[1] += twomodulus - ring.MRedLazy(x[1], y[1], modulus, mredconstant)
+	}
+}
+
+// SubTwoModulus evaluates p3 = (p1 + twomodulus - p2) * scalarMont (mod modulus).
+func (s *qrSub) SubTwoModulus(p1, p2 []uint64, scalarMont uint64, p3 []uint64) {
+	qrsubtwomodulusvec(p1, p2, scalarMont, p3, s.Modulus, s.MRedConstant)
+}
+
+func qrsubtwomodulusvec(p1, p2 []uint64, scalarMont uint64, p3 []uint64, modulus, mredconstant uint64) {
+	for j := 0; j < len(p1); j = j + 2 {
+		x, y, z := p1[j:j+2], p2[j:j+2], p3[j:j+2]
+		z[0] = ring.MRed(modulus-y[0]+x[0], scalarMont, modulus, mredconstant)
+		z[1] = ring.MRed(modulus-y[1]+x[1], scalarMont, modulus, mredconstant)
+	}
+}
+
 `
 
 // control runs scan over the fixture and demands a violation whose key contains each of the wanted substrings.
